@@ -23,19 +23,83 @@ fn tree_str(leaves: &[String], depths: &[u64], pos: &mut usize, depth: u64) -> S
     }
 }
 
+fn unhex(s: &str) -> Vec<u8> { (0..s.len() / 2).map(|i| u8::from_str_radix(&s[2 * i..2 * i + 2], 16).unwrap()).collect() }
+
+/// scriptSig made of the given pushes (minimal encodings)
+fn ssig_of(pushes: &[Vec<u8>]) -> bitcoin::ScriptBuf {
+    let mut b = bitcoin::script::Builder::new();
+    for p in pushes {
+        if p.is_empty() {
+            b = b.push_int(0);
+        } else if p.len() == 1 && (1..=16).contains(&p[0]) {
+            b = b.push_int(p[0] as i64);
+        } else {
+            b = b.push_slice(bitcoin::script::PushBytesBuf::try_from(p.clone()).unwrap());
+        }
+    }
+    b.into_script()
+}
+
+/// run the interpreter on the library's satisfaction and on mutations of it; each run carries the
+/// abstract input (for the L1 verdict) and what the interpreter said
+fn interp_runs(u: &Universe, d: &Desc, w: &World, raw: &Value) -> Vec<Value> {
+    use bitcoin::{Amount, TxOut};
+    let tx = w.tx();
+    let prevout = TxOut { value: Amount::from_sat(crate::world::PREV_VALUE), script_pubkey: d.script_pubkey() };
+    let ssig = bitcoin::ScriptBuf::from_bytes(unhex(raw["ssig"].as_str().unwrap_or("")));
+    let wit: Vec<Vec<u8>> = raw["wit"].as_array().map(|a| a.iter().map(|x| unhex(x.as_str().unwrap())).collect()).unwrap_or_default();
+    // the element list that carries the satisfaction: witness for segwit, scriptSig pushes for pkh
+    let legacy = wit.is_empty();
+    let items: Vec<Vec<u8>> = if legacy { crate::alpha::scriptsig_pushes(&ssig).unwrap_or_default() } else { wit.clone() };
+    let mut variants: Vec<(String, Vec<Vec<u8>>)> = vec![("id".into(), items.clone())];
+    // corrupt the first signature-sized element
+    if let Some(p) = items.iter().position(|x| x.len() >= 64 && x.len() <= 73) {
+        let mut v = items.clone();
+        let mid = v[p].len() / 2;
+        v[p][mid] ^= 0x55;
+        variants.push(("corrupt_sig".into(), v));
+        let mut v = items.clone();
+        v[p] = vec![];
+        variants.push(("empty_sig".into(), v));
+    }
+    if !items.is_empty() {
+        let mut v = items.clone();
+        v.remove(0);
+        variants.push(("drop_first".into(), v));
+    }
+    let mut v = items.clone();
+    v.insert(0, vec![]);
+    variants.push(("extra_bottom".into(), v));
+    let mut out = vec![];
+    for (name, v) in variants {
+        let (s2, w2) = if legacy { (ssig_of(&v), vec![]) } else { (ssig.clone(), v) };
+        let inp = crate::input::abstract_input(u, &tx, &prevout, &s2, &w2);
+        let res = crate::interp::run_interp(u, &tx, &prevout, &s2, &w2);
+        out.push(json!({"mut": name, "inp": inp, "res": res}));
+    }
+    out
+}
+
 pub fn run_case(u: &Universe, case: &Value) -> Vec<Value> {
     let ik = case["ik"].as_u64().unwrap() as usize;
     let leaves: Vec<String> = case["leaves"].as_array().unwrap().iter().map(|a| ast_to_string(u, a, "tap")).collect();
     let depths: Vec<u64> = case["dl"].as_array().unwrap().iter().map(|x| x.as_u64().unwrap()).collect();
-    let ds = if leaves.is_empty() {
+    let kind = case["kind"].as_str().unwrap_or("tr");
+    let ds = if kind == "pkh" {
+        format!("pkh({})", u.key_str(ik, "legacy"))
+    } else if kind == "wpkh" {
+        format!("wpkh({})", u.key_str(ik, "segwitv0"))
+    } else if kind == "shwpkh" {
+        format!("sh(wpkh({}))", u.key_str(ik, "segwitv0"))
+    } else if leaves.is_empty() {
         format!("tr({})", u.key_str(ik, "tap"))
     } else {
         let mut pos = 0;
         format!("tr({},{})", u.key_str(ik, "tap"), tree_str(&leaves, &depths, &mut pos, 0))
     };
     let abs: Vec<String> = case["leaves"].as_array().unwrap().iter().map(ast_to_abs).collect();
-    let mut ev = json!({"id": format!("{}", case["id"]), "ev": "trsat", "ctx": "tap", "ik": ik, "leaves": case["leaves"], "dl": case["dl"],
-                        "abs": format!("tr(K{},[{}] depths {:?})", ik, abs.join(" | "), depths), "msg": "", "res": []});
+    let mut ev = json!({"id": format!("{}", case["id"]), "ev": "trsat", "ctx": "tap", "kind": kind, "ik": ik, "leaves": case["leaves"], "dl": case["dl"],
+                        "abs": if kind == "tr" { format!("tr(K{},[{}] depths {:?})", ik, abs.join(" | "), depths) } else { format!("{}(K{})", kind, ik) }, "msg": "", "res": []});
     // the world lets the internal key sign exactly when its id is among the world's signers
     let worlds: Vec<World> = case["worlds"]
         .as_array()
@@ -68,7 +132,15 @@ pub fn run_case(u: &Universe, case: &Value) -> Vec<Value> {
             for w in &worlds {
                 for mode in ["nonmall", "mall"] {
                     for route in ["desc", "plan"] {
-                        res.push(one_result(u, &d, w, mode, route, None));
+                        let mut r1 = one_result(u, &d, w, mode, route, None);
+                        // the interpreter on what the library built, and on three mutations of it (C13)
+                        if route == "desc" && r1["r"] == "ok" {
+                            r1["interp"] = json!(interp_runs(u, &d, w, &r1["raw"]));
+                        }
+                        if let Some(o) = r1.as_object_mut() {
+                            o.remove("raw");
+                        }
+                        res.push(r1);
                     }
                 }
             }
